@@ -17,7 +17,7 @@ def main():
         from wnmc import e4
         e4.install()
     from wnmc import battery, env
-    root = tempfile.mkdtemp(prefix='wnmc16.', dir='/dev/shm' if os.access('/dev/shm', os.W_OK) else None)
+    root = tempfile.mkdtemp(prefix='wnmc16.', dir=env.scratch_parent())
     try:
         dirs = battery.build_databases(root)
         its = battery.items(dirs)
